@@ -17,8 +17,10 @@ class Angle(Quantity):
             self.si = angle.si
             self.unit = unit
             return
-        if isinstance(angle, str):
-            vprim.unsupported('Angle parsed from text')
+        if vprim.is_text(angle):
+            value, unit = _parse_angle_text(angle, unit)
+            Quantity.__init__(self, value, unit)
+            return
         if unit is None:
             raise u.UnitsError('No unit was specified')
         unit = u._as_unit(unit)
@@ -32,6 +34,44 @@ class Angle(Quantity):
             vprim.unsupported('sexagesimal Angle.to_string')
         q = self if unit is None else self.to(unit)
         return vprim.rope_fmt(q.value, precision)
+
+
+def _parse_angle_text(text, unit):
+    """A-UNITS: Angle('<number>', unit), Angle('a:b:c', unit) = sign * (a + b/60 + c/3600) unit,
+    Angle('XhYmZs') in hours and Angle('XdYmZs') in degrees (unit taken from the text)"""
+    pieces = vprim.fmt_pieces(text)
+    if len(pieces) == 1 and isinstance(pieces[0], str):
+        s = pieces[0]
+        if ':' not in s and 'h' not in s and 'd' not in s:
+            if unit is None:
+                raise u.UnitsError('No unit was specified')
+            return float(s), u._as_unit(unit)
+        vprim.unsupported('sexagesimal Angle from concrete text (use the native check)')
+    sign = 1
+    if isinstance(pieces[0], str):
+        if pieces[0] == '-':
+            sign = -1
+            pieces = pieces[1:]
+        elif pieces[0] == '+':
+            pieces = pieces[1:]
+        else:
+            raise ValueError('Cannot parse angle')
+    nums = [p for p in pieces if not isinstance(p, str)]
+    seps = [p for p in pieces if isinstance(p, str)]
+    vals = [vprim.piece_value(p) for p in nums]
+    if len(nums) == 1 and seps == []:
+        if unit is None:
+            raise u.UnitsError('No unit was specified')
+        return sign * vals[0], u._as_unit(unit)
+    if len(nums) == 3 and seps == [':', ':']:
+        if unit is None:
+            raise u.UnitsError('No unit was specified')
+        return sign * (vals[0] + vals[1] / 60 + vals[2] / 3600), u._as_unit(unit)
+    if len(nums) == 3 and seps == ['h', 'm', 's']:
+        return sign * (vals[0] + vals[1] / 60 + vals[2] / 3600), u.hourangle
+    if len(nums) == 3 and seps == ['d', 'm', 's']:
+        return sign * (vals[0] + vals[1] / 60 + vals[2] / 3600), u.deg
+    raise ValueError('Cannot parse angle')
 
 
 class Longitude(Angle):
